@@ -16,13 +16,13 @@ SKIP = {'larfg', 'larfx'}          # scalar-reflector helpers with in/out scalar
 SLACK = '64'            # canary bytes between a buffer and its guard page
 WIDE = '65536'
 
-def signatures():
-    s = open(os.path.join(vlib.REPO, 'src', 'C', 'lapack.c')).read()
+def signatures(cfile='lapack.c'):
+    s = open(os.path.join(vlib.REPO, 'src', 'C', cfile)).read()
     funcs = re.findall(r'static PyObject\*\s*(\w+)\(PyObject \*self, PyObject \*args,\s*PyObject \*kwrds\)\s*\{(.*?)\n\}', s, flags=re.S)
     out = {}
     for name, body in funcs:
         kw = re.search(r'char \*kwlist\[\] = \{(.*?)NULL\}', body, flags=re.S)
-        if not kw or name in SKIP: continue
+        if not kw or (name in SKIP and cfile == 'lapack.c'): continue
         names = re.findall(r'"(\w+)"', kw.group(1))
         fm = re.findall(r'PyArg_ParseTupleAndKeywords\(args, kwrds,\s*"([^"]*)"', body)
         if not fm: continue
@@ -380,3 +380,51 @@ def embed_probes(ctx, rng, build, prop):
         w.close()
     ctx.cov['embedding_probes'] = dict(stat, per_routine=per)
     return sum(stat.values())
+
+
+def blas_grammar_probes(ctx, rng, gb):
+    """every wrapper of blas.c with arguments of every kind: for each `O` argument a matrix of any typecode and shape (vectors and matrices,
+    empty ones, too short ones), a sparse matrix, a number, None or a string; integers from a small box or near 2^31 only for the dimensions
+    (the overflow cases are the known findings); every option character.  A call raises or returns."""
+    sigs = signatures('blas.c')
+    per = 60 if ctx.quick() else 1500
+    w = Worker(gb); stat = {'ok': 0, 'exception': 0, 'library_overread': 0}; cid = 11 * 10**6
+    tc0 = ['d']
+    def obj(an):
+        r = rng.random()
+        if r < 0.80:
+            tc = tc0[0] if rng.random() < 0.9 else rng.choice('dzi')
+            if an in ('x', 'y'): return {'mat': [tc, rng.choice([0, 1, 3, 6, 9, 12]), 1]}
+            return {'mat': [tc, rng.randint(0, 4), rng.randint(0, 4)]}
+        if r < 0.86: return {'sp': [rng.choice('dz'), rng.randint(0, 3), rng.randint(0, 3), rng.randint(0, 5)]}
+        if r < 0.95: return {'num': rng.choice([1.0, -2.0, 0, 2, [1.0, 1.0], 0.0])}
+        return {'obj': rng.choice(['int', 'none'])}
+    try:
+        for name, sig in sorted(sigs.items()):
+            for it in range(per):
+                args = {}; tc0[0] = rng.choice('dz')
+                for pos, (an, f) in enumerate(zip(sig['names'], sig['fmt'])):
+                    required = pos < sig['required']
+                    if f == 'O':
+                        if required or rng.random() < 0.5:
+                            args[an] = obj(an) if an not in ('alpha', 'beta') or rng.random() < 0.15 else {'num': rng.choice([1.0, -2.0, 0, 2, [1.0, 1.0], 0.0])}
+                    elif f == 'i':
+                        if required or rng.random() < 0.45: args[an] = {'int': rng.choice([-2, -1, 0, 0, 1, 1, 2, 2, 3, 4, 5])}
+                    elif f in 'cC':
+                        if required or rng.random() < 0.6: args[an] = {'chr': rng.choice(['N', 'T', 'C', 'L', 'U', 'R', 'X'])}
+                    elif f == 'd':
+                        if required or rng.random() < 0.3: args[an] = {'flt': rng.choice([0.0, 1.0, -1.0])}
+                case = {'kind': 'anycall', 'module': 'blas', 'id': cid, 'routine': name, 'args': args}; cid += 1
+                res = w.run(case)
+                if res.startswith('crash') or res == 'worker-died':
+                    w2 = Worker(gb, WIDE); res2 = w2.run(dict(case)); w2.close()
+                    if res2.startswith('crash') or res2 == 'worker-died':
+                        ctx.violation('c19:wrapper-out-of-bounds:blas.' + name, 'blas.%s(%s) touches memory outside its buffers (%s)' % (
+                            name, ', '.join('%s=%s' % (k, list(v.values())[0]) for k, v in args.items()), res2), case)
+                        continue
+                    stat['library_overread'] += 1; res = res2
+                stat['ok' if res == 'ok' else 'exception'] += 1
+    finally:
+        w.close()
+    ctx.cov['blas_grammar_probes'] = dict(stat, routines=len(sigs), per_routine=per)
+    return stat['ok'] + stat['exception']
